@@ -209,7 +209,9 @@ func VerifC11Reconnect() {
 	tc.conn.connLock.Lock()
 	observed := tc.conn.isClosed
 	tc.conn.connLock.Unlock()
-	vapi.Assume(observed)
+	// (an Assume(observed) here once made the whole harness vacuous for a change that never marks
+	// the connection closed; whether or not the close was noticed, the next call must succeed)
+	_ = observed
 	// the next call, issued after the close became observable
 	vapi.Check(tc.Send(c11Req(9)) == nil, "the call after the close is accepted")
 	// engine: let everything run that can run without any timer firing; natively: a short grace period
